@@ -424,7 +424,7 @@ class Labels(JSONField):
         """
         for k, v in kwargs.items():
             assert v is not None  # could be strings or lists of strings
-            assert isinstance(v, str) or isinstance(v, list)
+            assert isinstance(v, str) or (isinstance(v, list) and all(isinstance(i, str) for i in v))
             try:
                 # will toss an exception if field is not defined (a method or a class attribute is not a field)
                 if k not in self.__dict__:
